@@ -80,12 +80,19 @@ def hifd_possible(ctx):
     return True
 
 
+_BEH = {}      # cfg -> (behaviours, TLC result) of this run
+
+
 def xfer(ctx, exe, cfg, tag, cyc=False, env=None, sample=None):
     """One TLC run of SockXfer (free choice of the first k outcomes, or cyclic patterns over the whole transfer when cyc) and
     the replay of every emitted behaviour.  sample=n: replay only n seeded-randomly chosen behaviours (used for the re-run of
     the schedules under the descriptor-threshold prelude)."""
-    beh = []
-    res = run_tlc("MC_SockXfer.tla", cfg, ctx.rundir, on_edge=beh.append, timeout=1800, workers=4, heap="6g", coverage=False)
+    if cfg in _BEH:
+        beh, res = _BEH[cfg]
+    else:
+        beh = []
+        res = run_tlc("MC_SockXfer.tla", cfg, ctx.rundir, on_edge=beh.append, timeout=1800, workers=4, heap="6g", coverage=False)
+        _BEH[cfg] = (beh, res)
     if sample is None:
         ctx.add("states", res.distinct)
         ctx.add("transitions", res.generated)
@@ -233,7 +240,7 @@ def life(ctx, exe):
         for k in ([3] if ctx.tier == "quick" else [3, 0, 1]):
             v = "life-hifd%d" % k
             objcheck.replay_cover(ctx, g, [init[0]], exe, v, [], life_keyfn, walks=(100, 40) if ctx.tier == "quick" else (500, 60),
-                                  jobs=4, env={"VH_WATCHDOG": "20", "VH_HIFD": str(k)}, max_levels=9 if ctx.tier == "quick" else 200)
+                                  jobs=4, env={"VH_WATCHDOG": "20", "VH_HIFD": str(k)}, max_levels=7 if ctx.tier == "quick" else 200)
             ctx.add("distinct_nontrivial", ctx.cov["replay"][v]["scripts"])
     return g
 
